@@ -4,8 +4,18 @@
 (*   Years x DayClasses x Offs x time of day {seeded hash, and for EdgeTods (and   *)
 (*   always for the years 0, 2024, 9999) also 00:00:00 and 23:59:59};  FullYears: every day of the year x FullOffs;        *)
 (*   AllOffs: every whole-minute offset in -1439..1439 for one date.              *)
+(*   Boundary instants (Instants): the zero time 0001-01-01T00:00:00Z and its      *)
+(*   neighbours, the first/last second of the year range, the Unix epoch - each    *)
+(*   expressed in every offset of Offs that keeps the local year in 0..9999.       *)
+(*   Histories (HistLen > 0): sequences of DateString calls made by ONE process,   *)
+(*   over calls = zone names x offsets (the same name with different offsets,      *)
+(*   different names with the same offset, the empty name); every call of a        *)
+(*   history is judged on its own.                                                 *)
+(* A call is [y, mo, d, h, mi, s, off, zn, e2e]: zn = the zone name of the time's   *)
+(* location, e2e = the time is also stored as modification date of an attachment   *)
+(* in a real PDF and listed back.  A state is a call or [hist |-> <<calls>>].       *)
 EXTENDS Lex, TLC, Json
-CONSTANTS YearLo, YearHi, ExtraYears, FullYears, AllOffs, EdgeTods, Seed
+CONSTANTS YearLo, YearHi, ExtraYears, FullYears, AllOffs, EdgeTods, Seed, E2EYears, HistLen, HistN
 VARIABLE c
 
 Years == (YearLo..YearHi) \cup ExtraYears
@@ -15,25 +25,54 @@ DayClasses(y) == {<<1, 1>>, <<2, 28>>, <<3, 1>>, <<6, 30>>, <<10, 15>>, <<12, 31
 AllDays(y) == {<<m, d>> : m \in 1..12, d \in 1..31} \cap {md \in (1..12) \X (1..31) : md[2] <= DaysInMonth(y, md[1])}
 
 Hash(y, md, o) == (y * 7919 + (md[1] * 100 + md[2]) * 104729 + (o + 1440) * 613 + (Seed % 10007) * 8191) % 86400
-Mk(y, md, o, t) == [y |-> y, mo |-> md[1], d |-> md[2], h |-> t \div 3600, mi |-> (t \div 60) % 60, s |-> t % 60, off |-> o]
+MkZ(y, md, o, t, zn, e2e) == [y |-> y, mo |-> md[1], d |-> md[2], h |-> t \div 3600, mi |-> (t \div 60) % 60, s |-> t % 60, off |-> o,
+                             zn |-> zn, e2e |-> e2e]
+Mk(y, md, o, t) == MkZ(y, md, o, t, "", y \in E2EYears)
+
+(* ---- boundary instants, given in UT as <<y, mo, d, second of day>> *)
+Instants == { <<1, 1, 1, 0>>, <<1, 1, 1, 1>>, <<0, 12, 31, 86399>>, <<0, 1, 1, 0>>, <<9999, 12, 31, 86399>>,
+              <<1970, 1, 1, 0>>, <<1969, 12, 31, 86399>>, <<2000, 1, 1, 0>> }
+NextDay(y, mo, d) == IF d < DaysInMonth(y, mo) THEN <<y, mo, d + 1>> ELSE IF mo < 12 THEN <<y, mo + 1, 1>> ELSE <<y + 1, 1, 1>>
+PrevDay(y, mo, d) == IF d > 1 THEN <<y, mo, d - 1>> ELSE IF mo > 1 THEN <<y, mo - 1, DaysInMonth(y, mo - 1)>> ELSE <<y - 1, 12, 31>>
+(* the local calendar fields of the UT instant u in offset o (|o| < 1440: at most one day away) *)
+LocalOf(u, o) ==
+  LET tt == u[4] + o * 60
+      dd == IF tt < 0 THEN PrevDay(u[1], u[2], u[3]) ELSE IF tt >= 86400 THEN NextDay(u[1], u[2], u[3]) ELSE <<u[1], u[2], u[3]>>
+      t  == IF tt < 0 THEN tt + 86400 ELSE IF tt >= 86400 THEN tt - 86400 ELSE tt
+  IN MkZ(dd[1], <<dd[2], dd[3]>>, o, t, "", TRUE)
+ASSUME \A u \in Instants, o \in {0, 1, -1, 330, -330, 840, -840, 1439, -1439} :
+         Instant(LocalOf(u, o)) = <<DaysFromCivil(u[1], u[2], u[3]), u[4]>>
+
+(* ---- histories of calls made by one process *)
+ZoneNames == <<"", "CST", "IST", "UTC">>
+HistOffs == <<480, -360, 330, 0, 60>>
+HCalls == {MkZ(2024, <<2, 29>>, HistOffs[o], Hash(2024, <<2, 29>>, HistOffs[o]), ZoneNames[z], FALSE) : z \in 1..(IF HistN >= 20 THEN 4 ELSE 3),
+                                                                                                   o \in 1..(IF HistN >= 20 THEN 5 ELSE 4)}
+
 Tods(y, md, o) == {Hash(y, md, o)} \cup (IF EdgeTods \/ y \in {0, 2024, 9999} THEN {0, 86399} ELSE {})
 
 Init == \/ \E y \in Years : \E md \in DayClasses(y) : \E o \in Offs : \E t \in Tods(y, md, o) : c = Mk(y, md, o, t)
         \/ \E y \in FullYears : \E md \in AllDays(y) : \E o \in FullOffs : c = Mk(y, md, o, Hash(y, md, o))
         \/ AllOffs /\ \E o \in -1439..1439 : c = Mk(2024, <<2, 29>>, o, Hash(2024, <<2, 29>>, o))
+        \/ AllOffs /\ \E u \in Instants : \E o \in Offs : LocalOf(u, o).y \in 0..9999 /\ c = LocalOf(u, o)
+        \/ \E n \in 2..HistLen : \E hh \in [1..n -> HCalls] : c = [hist |-> hh]
 Next == FALSE /\ UNCHANGED c
 Spec == Init /\ [][Next]_c
 
 (* design checks of the reference calendar arithmetic *)
 D2(n) == <<48 + (n \div 10), 48 + (n % 10)>>
-RefDate == <<68, 58>> \o D2(c.y \div 100) \o D2(c.y % 100) \o D2(c.mo) \o D2(c.d) \o D2(c.h) \o D2(c.mi) \o D2(c.s)
-             \o <<(IF c.off < 0 THEN 45 ELSE 43)>> \o D2(Abs(c.off) \div 60) \o <<39>> \o D2(Abs(c.off) % 60)
-RefValid == ValidISODate(RefDate) /\ DateFields(RefDate) = c /\ ValidISODate(RefDate \o <<39>>)
-CalendarOK ==
+Calls == IF "hist" \in DOMAIN c THEN c.hist ELSE <<c>>
+RefDateOf(x) == <<68, 58>> \o D2(x.y \div 100) \o D2(x.y % 100) \o D2(x.mo) \o D2(x.d) \o D2(x.h) \o D2(x.mi) \o D2(x.s)
+             \o <<(IF x.off < 0 THEN 45 ELSE 43)>> \o D2(Abs(x.off) \div 60) \o <<39>> \o D2(Abs(x.off) % 60)
+Plain(x) == [y |-> x.y, mo |-> x.mo, d |-> x.d, h |-> x.h, mi |-> x.mi, s |-> x.s, off |-> x.off]
+RefValid == \A i \in 1..Len(Calls) : LET x == Calls[i] RefDate == RefDateOf(x) IN
+              ValidISODate(RefDate) /\ DateFields(RefDate) = Plain(x) /\ ValidISODate(RefDate \o <<39>>)
+CalOK(x) ==
   /\ DaysFromCivil(1970, 1, 1) = 0 /\ DaysFromCivil(2000, 3, 1) = 11017 /\ DaysFromCivil(0, 1, 1) = -719528
-  /\ c.d < DaysInMonth(c.y, c.mo) => DaysFromCivil(c.y, c.mo, c.d + 1) = DaysFromCivil(c.y, c.mo, c.d) + 1
-  /\ (c.d = DaysInMonth(c.y, c.mo) /\ c.mo < 12) => DaysFromCivil(c.y, c.mo + 1, 1) = DaysFromCivil(c.y, c.mo, c.d) + 1
-  /\ (c.mo = 12 /\ c.d = 31) => DaysFromCivil(c.y + 1, 1, 1) = DaysFromCivil(c.y, 12, 31) + 1
-  /\ Instant(c)[2] \in 0..86399
+  /\ x.d < DaysInMonth(x.y, x.mo) => DaysFromCivil(x.y, x.mo, x.d + 1) = DaysFromCivil(x.y, x.mo, x.d) + 1
+  /\ (x.d = DaysInMonth(x.y, x.mo) /\ x.mo < 12) => DaysFromCivil(x.y, x.mo + 1, 1) = DaysFromCivil(x.y, x.mo, x.d) + 1
+  /\ (x.mo = 12 /\ x.d = 31) => DaysFromCivil(x.y + 1, 1, 1) = DaysFromCivil(x.y, 12, 31) + 1
+  /\ Instant(x)[2] \in 0..86399
+CalendarOK == \A i \in 1..Len(Calls) : CalOK(Calls[i])
 EmitCase == PrintT(<<"CASE", ToJson(c)>>)
 =============================================================================
